@@ -70,10 +70,6 @@ def _raw_update(ex, st, self, args, kwargs, node):
     return Val.const(None)
 
 
-class _RawView:
-    """run-time view of the real rawDict for clauses: d['key:K'] style fields are reached as raw.has(K) / raw[K]"""
-
-
 cls(
     "CFFRawDict",
     fields={**{"key:" + k: t for k, t in RAW_KEYS.items()}, **{"has:" + k: BOOL for k in RAW_KEYS}},
